@@ -70,6 +70,8 @@ func OracleC07(r *SeqRun) []explore.Violation {
 	joined := map[holdKey]bool{}
 	updFresh := false
 	updExisting := map[holdKey]bool{} // holds whose terms were changed by a LOCK with the update flag
+	firstDeadline := map[holdKey]int64{} // virtual instant at which the first record of a hold expires by its own terms
+	var stopT int64
 	var prev *hapi.Snapshot
 	for _, st := range append(append([]SeqStep{}, r.Ramp...), r.Steps...) {
 		if st.Snap == nil {
@@ -92,6 +94,10 @@ func OracleC07(r *SeqRun) []explore.Violation {
 				if was && st.Op.Cmd != nil && st.Op.Cmd.Type == 1 && st.Op.Cmd.Flag&0x02 != 0 && st.Op.Cmd.Key == k.Key[15] && st.Op.Cmd.Id == h.LockId[15] {
 					updExisting[holdKey{k.DB, k.Key, h.LockId}] = true
 				}
+				if !was && st.Op.Cmd != nil && st.Op.Cmd.Type == 1 && st.Op.Cmd.Key == k.Key[15] && st.Op.Cmd.Id == h.LockId[15] && st.Op.Cmd.ExpriedFlag&(fUnlim|fMilli) == 0 {
+					// deadline carried by the first record of this hold
+					firstDeadline[holdKey{k.DB, k.Key, h.LockId}] = st.T + int64(st.Op.Cmd.Expried)*unitSeconds(st.Op.Cmd.ExpriedFlag)*sec
+				}
 				if !was {
 					if pk != nil && len(pk.Holds) > 0 {
 						joined[holdKey{k.DB, k.Key, h.LockId}] = true
@@ -103,6 +109,7 @@ func OracleC07(r *SeqRun) []explore.Violation {
 			}
 		}
 		prev = st.Snap
+		stopT = st.T
 	}
 	for hk, h := range before {
 		cls := persistClass(h, delay)
@@ -135,6 +142,9 @@ func OracleC07(r *SeqRun) []explore.Violation {
 				sfx = "/update-flag-on-fresh-lock"
 			} else if updExisting[hk] && a.Depth < h.Depth {
 				sfx = "/depth-lost-after-update-outlived-the-original-records"
+			} else if fd, ok := firstDeadline[hk]; ok && a.Depth < h.Depth && stopT >= fd {
+				// the hold was renewed by a later re-lock, but its first record still carries the old deadline
+				sfx = "/depth-lost-after-relock-outlived-the-first-record"
 			}
 			add("restored-terms-differ"+sfx, fmt.Sprintf("hold db%d key%x id%x restored with depth %d Count %d Rcount %d, it had depth %d Count %d Rcount %d", hk.db, hk.key[15], hk.id[15], a.Depth, a.Count, a.Rcount, h.Depth, h.Count, h.Rcount))
 		}
